@@ -64,7 +64,7 @@ def run_children(jobs, nproc=14):
 
 
 # ----------------------------------------------------------------------------- generation
-def gen_fan_model(rng: random.Random, clock: str, with_pre: bool = False, updater: bool = False):
+def gen_fan_model(rng: random.Random, clock: str, with_pre: bool = False, updater: bool = False, simlst: bool = False):
     """Active handlers reschedule themselves with a drawn positive delay and fire event types; listeners schedule
     only leaf handlers (which observe / cancel), so every run is finite.  Listener l has a level lv[l]: it is only
     ever subscribed to types <= lv[l] and only fires types > lv[l] (no recursion)."""
@@ -169,6 +169,18 @@ def gen_fan_model(rng: random.Random, clock: str, with_pre: bool = False, update
              "stream_mode": rng.choice(["new", "setseed"])}
     if any(sd == 0 for _, sd in streams) and rng.random() < 0.7:
         model["stream_mode"] = "new"              # MersenneTwister(0) is then constructed in construct_model
+    if simlst:
+        # model components built in construct_model that listen to the SIMULATOR and, when notified, draw from the
+        # shared streams and / or schedule an event.  Only notifications that do not depend on the pause points
+        # (WARMUP, START_REPLICATION) may act in a program whose run must not depend on them.
+        model["simlst"] = []
+        for _ in range(rng.randint(2, 3)):
+            ntf = rng.choice(["warmup", "warmup", "startrepl"])
+            body = [["obsd", rng.choice(sids), st(), -2, 9]]
+            if rng.random() < 0.7:
+                body.append(["sched", ["reld", st(), 0, 3, u], rng.choice(S.PRIOS), rng.choice(leaf)])
+            rng.shuffle(body)
+            model["simlst"].append([ntf, body])
     if updater:
         # the library's seed management instead: streams kept for the life of the model (dict / StreamInformation),
         # StreamSeedUpdater (some streams listed, the others through its SimpleStreamUpdater fallback) or
@@ -305,7 +317,9 @@ RULE = ("stochastic model programs with pub/sub fan-out: 2-3 self-rescheduling h
         "construct_model / handlers, tied in time and priority with ordinary events; every third program leaves the seeds to the "
         "library (streams kept in a dict / StreamInformation for the life of the model, StreamSeedUpdater incl. fallback or "
         "SimpleStreamUpdater, update_seeds(streams, replication number) in construct_model) and two of the children first make a "
-        "pilot run of the same replication on the same simulator, model and stream objects; each program is executed by 5-6 child interpreters: "
+        "pilot run of the same replication on the same simulator, model and stream objects; every fourth program builds 2-3 "
+        "components in construct_model that listen to the simulator (WARMUP, START_REPLICATION) and react by drawing from the shared "
+        "streams and scheduling events (these programs are compared between children only); each program is executed by 5-6 child interpreters: "
         "PYTHONHASHSEED 0 / 1 / 2 / a drawn 32-bit value / random; prior activity none / small / large / medium / very large (17 to 5000 event ids "
         "consumed, 0-40 event types, 0-25 listeners, 50-12345 objects allocated and half dropped, 0-3 other simulations run); "
         "uninterrupted, one cut, three cuts, steps and cuts mixed, and (every 6th program) stop() from a handler followed by start. "
@@ -330,7 +344,7 @@ def main(tier: str) -> int:
             programs.append((ent["clock"], ent["model"], ent.get("seed", 1)))
     for i in range(n_prog):
         clock = clocks[i % len(clocks)]
-        programs.append((clock, gen_fan_model(rng, clock, with_pre=(i % 2 == 1), updater=(i % 3 == 2)), rng.randint(0, 10 ** 9)))
+        programs.append((clock, gen_fan_model(rng, clock, with_pre=(i % 2 == 1), updater=(i % 3 == 2), simlst=(i % 4 == 3)), rng.randint(0, 10 ** 9)))
     jobs = []
     index = []
     for pi, (clock, model, vseed) in enumerate(programs):
